@@ -75,24 +75,29 @@ impl Uni {
     }
 }
 
-fn content(seed: u64, label: &str, comp_hint: &str) -> Vec<u8> {
+/// Deterministic content of one add. `compressible` (compression requested / builder default):
+/// text or runs of at least 64 bytes, so that the stored form IS compressed (the model of the code
+/// distinguishes raw from compressed-or-encrypted blocks). Otherwise any class, incl. tiny files.
+/// All contents stay below 480 bytes stored, so every appended file occupies one 512-byte unit.
+fn content(seed: u64, label: &str, compressible: bool) -> Vec<u8> {
     let mut rng = Rng::derive(seed, label);
-    // lengths straddle nothing special here (single unit files); classes matter for compression:
-    // text compresses (COMPRESS flag set), random does not (stored raw even when zlib requested)
-    let class = match rng.below(4) {
-        0 => "random",
-        1 => "run",
-        _ => "text",
+    let (class, len) = if compressible {
+        (if rng.below(3) == 0 { "run" } else { "text" }, rng.range(64, 470) as usize)
+    } else {
+        let class = match rng.below(3) {
+            0 => "random",
+            1 => "run",
+            _ => "text",
+        };
+        let len = match rng.below(4) {
+            0 => rng.range(1, 7),
+            1 => rng.range(8, 64),
+            _ => rng.range(65, 470),
+        } as usize;
+        (class, len)
     };
-    let len = match rng.below(6) {
-        0 => rng.range(1, 7),
-        1 => rng.range(8, 64),
-        2 => rng.range(500, 530),
-        _ => rng.range(65, 1500),
-    } as usize;
-    let _ = comp_hint;
     let mut v = gen_content(class, len, &mut rng);
-    // make every content unique and non-empty: prefix a few label-derived bytes
+    // make every content unique: overwrite a few leading bytes with label-derived hex digits
     let t = tok(label.as_bytes());
     for (i, b) in t.bytes().take(v.len().min(6)).enumerate() {
         v[i] = b;
@@ -125,7 +130,7 @@ fn build_start(path: &Path, c: &Value, uni: &Uni, seed: u64, case: &str) -> Resu
             .listfile_option(if lf { ListfileOption::Generate } else { ListfileOption::None })
             .attributes_option(if at { AttributesOption::GenerateCrc32 } else { AttributesOption::None });
         for n in &init {
-            let data = content(seed, &format!("{case}:init:{n}"), "zlib");
+            let data = content(seed, &format!("{case}:init:{n}"), true);
             b = b.add_file_data(data, uni.conc_of(n));
         }
         let mut prng = Rng::derive(seed, &format!("{case}:pad"));
@@ -167,6 +172,23 @@ fn build_start(path: &Path, c: &Value, uni: &Uni, seed: u64, case: &str) -> Resu
     }
     let st = last.unwrap();
     Err(format!("could not tune slack: got {} want {}", st.slack_bytes, 16 * slack))
+}
+
+/// Projection of the in-memory state through the optional hook (D-level diagnostics only).
+#[cfg(has_c06_hook)]
+fn state_of(m: &MutableArchive) -> Value {
+    let (slots, blocks, cursor, dirty) = m.verif_state();
+    let live = slots.iter().filter(|s| s.0 == 2).count();
+    let deleted = slots.iter().filter(|s| s.0 == 1).count();
+    json!({"has":true,"live":live,"deleted":deleted,"blocks":blocks,"cursor":cursor.unwrap_or(0) as i64,"dirty":dirty})
+}
+#[cfg(not(has_c06_hook))]
+fn state_of(_m: &MutableArchive) -> Value {
+    json!({"has":false,"live":0,"deleted":0,"blocks":0,"cursor":0,"dirty":false})
+}
+
+fn no_state() -> Value {
+    json!({"has":false,"live":0,"deleted":0,"blocks":0,"cursor":0,"dirty":false})
 }
 
 struct Pending {
@@ -297,19 +319,19 @@ fn run_history(cx: &Ctx, c: &Value, dir: &Path, seed: u64) {
     cx.trace.ev(json!({"ev":"Reset","case":case,"cls":gs(c,"cls"),"ver":gi(c,"ver"),"lf":lf,"at":at,
         "slack":st.slack_bytes,"hsize":st.hsize,"nblocks0":st.nblocks0,"nspecial":st.nspecial - 1,"tail":st.tail,
         "universe":uni.abs,"concrete":uni.conc,"homes":homes,"initial":Value::Object(initial),
-        "devs":devs.join("+"),"preds":c.get("preds").cloned().unwrap_or(json!([])),"toks":Value::Object(toks),"nops":ga(c,"ops").len()}));
+        "devs":devs.join("+"),"preds":c.get("preds").cloned().unwrap_or(json!([])),"toks":Value::Object(toks),"pres":c.get("pres").cloned().unwrap_or(json!([])),"nops":ga(c,"ops").len()}));
 
     let mut m: Option<MutableArchive> = None;
-    let open = |cx: &Ctx, m: &mut Option<MutableArchive>| -> bool {
+    let open = |cx: &Ctx, m: &mut Option<MutableArchive>, oi: usize| -> bool {
         let p = path.clone();
-        let (res, v) = cx.op(json!({"ev":"Open","case":case}), move || {
+        let (res, v) = cx.op(json!({"ev":"Open","case":case,"oi":oi}), move || {
             let r = MutableArchive::open(&p);
             (classify(&r), r.ok())
         });
         *m = v.flatten();
         res == "ok" && m.is_some()
     };
-    let mut alive = open(cx, &mut m);
+    let mut alive = open(cx, &mut m, 0);
     let mut ck = 0usize;
     let ops = ga(c, "ops");
     for (oi, o) in ops.iter().enumerate() {
@@ -323,7 +345,7 @@ fn run_history(cx: &Ctx, c: &Value, dir: &Path, seed: u64) {
                 let comp = gs(o, "comp");
                 let enc = gs(o, "enc");
                 let rep = gb(o, "rep");
-                let data = content(seed, &format!("{case}:op{oi}:{n}"), comp);
+                let data = content(seed, &format!("{case}:op{oi}:{n}"), comp != "none");
                 let mut opts = AddFileOptions::new()
                     .compression(match comp {
                         "none" => CompressionMethod::None,
@@ -337,28 +359,28 @@ fn run_history(cx: &Ctx, c: &Value, dir: &Path, seed: u64) {
                     opts = opts.fix_key();
                 }
                 let cn = uni.conc_of(n).to_string();
-                let ev = json!({"ev":"Add","case":case,"okey":format!("o{}", oi + 1),"n":n,"tok":tok(&data),"len":data.len(),"rep":rep,"comp":comp,"enc":enc});
+                let ev = json!({"ev":"Add","case":case,"oi":oi + 1,"okey":format!("o{}", oi + 1),"n":n,"tok":tok(&data),"len":data.len(),"rep":rep,"comp":comp,"enc":enc,"st":no_state()});
                 let ma = m.as_mut().unwrap();
-                cx.op(ev, || (classify(&ma.add_file_data(&data, &cn, opts)), ()));
+                cx.op_with(ev, || { let r = classify(&ma.add_file_data(&data, &cn, opts)); (r, state_of(ma)) }, |ev, st| ev["st"] = st.clone());
             }
             "remove" => {
                 let n = gs(o, "n");
                 let cn = uni.conc_of(n).to_string();
                 let ma = m.as_mut().unwrap();
-                cx.op(json!({"ev":"Remove","case":case,"n":n}), || (classify(&ma.remove_file(&cn)), ()));
+                cx.op_with(json!({"ev":"Remove","case":case,"oi":oi + 1,"n":n,"st":no_state()}), || { let r = classify(&ma.remove_file(&cn)); (r, state_of(ma)) }, |ev, st| ev["st"] = st.clone());
             }
             "rename" => {
                 let a = gs(o, "n");
                 let b = gs(o, "m");
                 let (ca, cb) = (uni.conc_of(a).to_string(), uni.conc_of(b).to_string());
                 let ma = m.as_mut().unwrap();
-                cx.op(json!({"ev":"Rename","case":case,"n":a,"m":b}), || (classify(&ma.rename_file(&ca, &cb)), ()));
+                cx.op_with(json!({"ev":"Rename","case":case,"oi":oi + 1,"n":a,"m":b,"st":no_state()}), || { let r = classify(&ma.rename_file(&ca, &cb)); (r, state_of(ma)) }, |ev, st| ev["st"] = st.clone());
             }
             "compact" => {
                 let ma = m.as_mut().unwrap();
                 // the compacted file has its own table size / special files: re-read the capacity figures
                 cx.op_with(
-                    json!({"ev":"Compact","case":case,"hsize":0,"nspecial":0}),
+                    json!({"ev":"Compact","case":case,"oi":oi + 1,"hsize":0,"nspecial":0}),
                     || {
                         let r = ma.compact();
                         let a = ma.archive();
@@ -374,7 +396,7 @@ fn run_history(cx: &Ctx, c: &Value, dir: &Path, seed: u64) {
             }
             "flush" => {
                 let ma = m.as_mut().unwrap();
-                cx.op(json!({"ev":"Flush","case":case}), || (classify(&ma.flush()), ()));
+                cx.op_with(json!({"ev":"Flush","case":case,"oi":oi + 1,"st":no_state()}), || { let r = classify(&ma.flush()); (r, state_of(ma)) }, |ev, st| ev["st"] = st.clone());
             }
             "reopen" => {
                 let ma = m.take().unwrap();
@@ -384,7 +406,7 @@ fn run_history(cx: &Ctx, c: &Value, dir: &Path, seed: u64) {
                 });
                 ck += 1;
                 checkpoint(cx, &case, &path, &uni, false, ck);
-                alive = open(cx, &mut m);
+                alive = open(cx, &mut m, oi + 1);
             }
             other => tool_error(&format!("unknown op {other}")),
         }
